@@ -14,6 +14,7 @@ broken obligation):
                statements matching cfg["effects"] (an update of a declared state variable)
   expressions  names, int/bool/None constants, + - * // %, comparisons (also chained tuple ==), and/or/not,
                `is None`, `is not None`, `in` / `not in` on dict / set / list, list literal, list +,
+               [f(x) for x in L if P], attribute expressions declared as state variables (cfg["attr_vars"]),
                truthiness of lists (`not xs`), and every expression matching cfg["prims"]
 Semantics of the target (coq/theories/Lib/PyRt.v): a statement list denotes a term of type `result T`
 (Err tag = an exception); a for loop is res_fold over the iterated list whose state is the tuple of the
@@ -114,6 +115,11 @@ class Tr:
         self.raises = list(cfg.get("raises", []))  # [(substring of unparse(raise stmt), tag)]
         self.fresh = 0
         self.ret_type = parse_type(cfg["returns"])
+        # the exception monad: by default Lib/Sexp.result with integer tags; a configuration may name another one
+        # (type constructor, bind notation keyword, unit, fold, checked unwrap) whose errors carry data
+        m = dict(type="result", bind="dor", ok="Ok", fold="res_fold", unwrap="unwrap")
+        m.update(cfg.get("monad", {}))
+        self.M = m
 
     # ---- structural matching of primitive patterns; holes are names starting with "__"
     def unify(self, pat, node, binds):
@@ -181,6 +187,28 @@ class Tr:
                 return "[]", EMPTY_T
             parts = [self.expr(x, env, hoist) for x in e.elts]
             return "[" + "; ".join(p[0] for p in parts) + "]", ("list", parts[0][1])
+        if isinstance(e, ast.ListComp):
+            # [f(x) for x in L if P]  ->  map (fun x => f) (filter (fun x => P) L); neither f nor P may raise
+            if len(e.generators) != 1 or e.generators[0].is_async or not isinstance(e.generators[0].target, ast.Name):
+                raise Unsupported("comprehension other than [f(x) for x in L if P]: " + ast.unparse(e))
+            g = e.generators[0]
+            l, lt = self.expr(g.iter, env, hoist)
+            if lt[0] != "list":
+                raise Unsupported("comprehension over a %s" % (lt,))
+            x = g.target.id
+            env2 = dict(env)
+            env2[x] = lt[1]
+            inner = []
+            conds = [self.cond(c, env2, inner) for c in g.ifs]
+            src = "(filter (fun %s => %s) %s)" % (x, " && ".join(conds), l) if conds else l
+            if isinstance(e.elt, ast.Name) and e.elt.id == x:
+                out = src, lt
+            else:
+                f, ft = self.expr(e.elt, env2, inner)
+                out = "(map (fun %s => %s) %s)" % (x, f, src), ("list", ft)
+            if inner:
+                raise Unsupported("comprehension element / condition that may raise: " + ast.unparse(e))
+            return out
         if isinstance(e, ast.Tuple):
             parts = [self.expr(x, env, hoist) for x in e.elts]
             return "(" + ", ".join(p[0] for p in parts) + ")", ("tuple", tuple(p[1] for p in parts))
@@ -226,7 +254,7 @@ class Tr:
             return "[]"
         if have[0] == "opt" and have[1] == want:
             n = self.new("u")
-            hoist.append((n, "unwrap %s" % term))
+            hoist.append((n, "%s %s" % (self.M["unwrap"], term)))
             return n
         raise Unsupported("type mismatch: %s has type %s, needed %s" % (term, have, want))
 
@@ -381,17 +409,25 @@ class Tr:
                     return True
         return False
 
-    def raise_tag(self, st):
+    def raise_term(self, st, env):
+        """the error value of a raise statement: declared per message fragment, either an integer tag (Err n) or a
+        Gallina term template over the Python variables in scope ({name})"""
         txt = ast.unparse(st)
         for sub, tag in self.raises:
-            if sub in txt:
-                return tag
+            if sub in txt.replace(SUFFIX, ""):
+                if isinstance(tag, int):
+                    return "Err (%d)" % tag
+                names = {v[:-len(SUFFIX)]: v for v, t in env.items() if v.endswith(SUFFIX) and t != ("unit",)}
+                try:
+                    return tag.format(**names)
+                except KeyError as e:
+                    raise Unsupported("raise template needs a variable that is not bound here: %s" % e)
         raise Unsupported("raise without a declared tag: " + txt[:100])
 
     def bind_hoist(self, hoist, body, ind):
         out = ""
         for n, t in hoist:
-            out += "%sdor %s <- %s;\n" % (ind, n, t)
+            out += "%s%s %s <- %s;\n" % (ind, self.M["bind"], n, t)
         return out + body
 
     def block(self, stmts, env, k, ind):
@@ -458,7 +494,7 @@ class Tr:
                 args = {kk[2:]: self.expr(v, env, hoist)[0] for kk, v in binds.items()}
                 args["state"] = var
                 if tmpl.startswith("!"):   # an effect that may raise: template denotes a `result state`
-                    return self.bind_hoist(hoist, "%sdor %s <- %s;\n" % (ind, var, tmpl[1:].format(**args)), ind) + self.block(rest, env, k, ind)
+                    return self.bind_hoist(hoist, "%s%s %s <- %s;\n" % (ind, self.M["bind"], var, tmpl[1:].format(**args)), ind) + self.block(rest, env, k, ind)
                 return self.bind_hoist(hoist, "%slet %s := %s in\n" % (ind, var, tmpl.format(**args)), ind) + self.block(rest, env, k, ind)
             c = st.value
             n = c.func.value.id
@@ -473,12 +509,12 @@ class Tr:
                 raise Unsupported("method call: " + ast.unparse(st))
             return self.bind_hoist(hoist, "%slet %s := %s in\n" % (ind, n, term), ind) + self.block(rest, env, k, ind)
         if isinstance(st, ast.Raise):
-            return "%sErr (%d)\n" % (ind, self.raise_tag(st))
+            return "%s%s\n" % (ind, self.raise_term(st, env))
         if isinstance(st, ast.Continue):
             return k(env, jump="continue")
         if isinstance(st, ast.Return):
             if st.value is None:
-                raise Unsupported("bare return")
+                st = ast.Return(value=ast.Constant(value=None))     # `return` is `return None`
             v, vt = self.expr(st.value, env, hoist)
             v = self.need_ret(v, vt, st.value, env, hoist)
             return self.bind_hoist(hoist, k(env, jump=("return", v)), ind)
@@ -495,10 +531,10 @@ class Tr:
             allv = self.assigned(st.body + st.orelse)
             vs = [v for v in allv if v in env and env[v] != ("unit",)]
             dropped = [v for v in allv if v not in vs]
-            ret = lambda env2, jump=None: "%s    Ok %s\n" % (ind, tuple_term(vs)) if jump is None else self.unsupported("jump in if")
+            ret = lambda env2, jump=None: "%s    %s %s\n" % (ind, self.M["ok"], tuple_term(vs)) if jump is None else self.unsupported("jump in if")
             tb = self.block(st.body, env, ret, ind + "    ")
             te = self.block(st.orelse, env, ret, ind + "    ")
-            txt = "%sdor %s <- (if %s then\n%s%s  else\n%s%s  );\n" % (ind, tuple_pat(vs), c, tb, ind, te, ind)
+            txt = "%s%s %s <- (if %s then\n%s%s  else\n%s%s  );\n" % (ind, self.M["bind"], tuple_pat(vs), c, tb, ind, te, ind)
             env_after = dict(env)
             for v in dropped:
                 txt += "%slet %s := tt in\n" % (ind, v)   # poison: a later read is a type error
@@ -616,15 +652,15 @@ class Tr:
         def kbody(env2, jump=None):
             if jump is not None and jump != "continue":
                 raise Unsupported("jump out of a loop body")
-            return "%s    Ok %s\n" % (ind, tuple_term(carried))
+            return "%s    %s %s\n" % (ind, self.M["ok"], tuple_term(carried))
 
         body = self.block(st.body, env_body, kbody, ind + "    ")
         xpat = tvars[0] if len(tvars) == 1 else "'(" + ", ".join(tvars) + ")"
         spat = tuple_pat(carried) if carried else "(_ : unit)"
         if len(carried) == 1:
             spat = "(%s : %s)" % (carried[0], coq_type(env[carried[0]]))
-        txt = "%sdor %s <- res_fold (fun %s %s =>\n%s%s%s  ) %s %s;\n" % (
-            ind, tuple_pat(carried), spat, xpat, pre, body, ind, xs, tuple_term(carried))
+        txt = "%s%s %s <- %s (fun %s %s =>\n%s%s%s  ) %s %s;\n" % (
+            ind, self.M["bind"], tuple_pat(carried), self.M["fold"], spat, xpat, pre, body, ind, xs, tuple_term(carried))
         env_after = dict(env)
         for v in dropped:
             txt += "%slet %s := tt in\n" % (ind, v)   # poison: a later read is a type error
@@ -654,13 +690,13 @@ class Tr:
 
         def kfun(env2, jump=None):
             if isinstance(jump, tuple) and jump[0] == "return":
-                return "%s  Ok %s\n" % (ind, jump[1])
+                return "%s  %s %s\n" % (ind, self.M["ok"], jump[1])
             if jump is None and cfg.get("implicit_return") is not None:
-                return "%s  Ok %s\n" % (ind, cfg["implicit_return"].format(**{v[:-len(SUFFIX)]: v for v in env2 if v.endswith(SUFFIX)}))
+                return "%s  %s %s\n" % (ind, self.M["ok"], cfg["implicit_return"].format(**{v[:-len(SUFFIX)]: v for v in env2 if v.endswith(SUFFIX)}))
             raise Unsupported("function may end without a return" if jump is None else "continue outside a loop")
 
         body = self.block(list(f.body), env, kfun, ind)
-        return "Definition %s %s : result %s :=\n%s%s." % (cfg["name"], " ".join(params), coq_type(self.ret_type), pre, body.rstrip("\n"))
+        return "Definition %s %s : %s %s :=\n%s%s." % (cfg["name"], " ".join(params), self.M["type"], coq_type(self.ret_type), pre, body.rstrip("\n"))
 
 
 def find_function(tree, name, cls=None):
@@ -697,15 +733,33 @@ def rename_cfg(cfg):
     c["vars"] = {rn(k): v for k, v in cfg["vars"].items()}
     c["pyparams"] = [rn(x) for x in cfg["pyparams"]]
     c["unused_params"] = [rn(x) for x in cfg.get("unused_params", [])]
-    c["params"] = [(rn(n) if n in cfg["pyparams"] else n, t) for n, t in cfg["params"]]
+    attr = set(cfg.get("attr_vars", {}).values())
+    c["params"] = [(rn(n) if (n in cfg["pyparams"] or n in attr) else n, t) for n, t in cfg["params"]]
     c["predefine"] = {rn(k): v for k, v in cfg.get("predefine", {}).items()}
     c["match_class"] = {rn(k): v for k, v in cfg.get("match_class", {}).items()}
     c["range_like"] = tuple(rn(x) for x in cfg.get("range_like", ("range",)))
     return c
 
 
+class AttrVars(ast.NodeTransformer):
+    """cfg["attr_vars"]: {"self.thetas": "thetas"} - an attribute expression that is the method's state is read and
+    written as a variable of that name (declared in cfg["vars"] / cfg["params"] like any other)"""
+
+    def __init__(self, table):
+        self.table = table
+
+    def visit_Attribute(self, node):
+        txt = ast.unparse(node)
+        if txt in self.table:
+            return ast.copy_location(ast.Name(id=self.table[txt], ctx=node.ctx), node)
+        self.generic_visit(node)
+        return node
+
+
 def translate(source_text, cfg):
     tree = ast.parse(source_text)
     f = find_function(tree, cfg["func"], cfg.get("cls"))
+    if cfg.get("attr_vars"):
+        f = AttrVars(cfg["attr_vars"]).visit(f)
     f = Rename().visit(f)
     return Tr(rename_cfg(cfg)).function(f)
